@@ -911,6 +911,79 @@ def gen_strings_case(r, idx):
     return lines
 
 
+def gen_strobj_case(r, idx):
+    """objects of the attributed string class: every constructor, then appends,
+    inserts, erases, overwrites and swaps; each string is dumped after every
+    change"""
+    lines = ["CASE %d" % idx]
+    size = {}
+
+    def rb(n):
+        return [r.pick([0, 92, 27, 128, 255, r.below(256), r.rng(32, 126), r.rng(32, 126)]) for _ in range(n)]
+
+    def an_elem():
+        return el(wild_glyph(r) if r.chance(1, 6) else wf_glyph(r), wf_attr(r))
+
+    k = 0
+    for _ in range(r.rng(3, 12)):
+        ids = sorted(size)
+        c = r.below(18)
+        if c < 5 or not ids:
+            if k >= 3:
+                continue
+            kind = r.below(7)
+            if kind == 0:
+                b = rb(r.rng(0, 8)); lines.append("Z %d ofbytes %s" % (k, hexs(b))); size[k] = len(b)
+            elif kind == 1:
+                b = rb(r.pick([0, 1, 5, 15, 16, 17, 40])); lines.append("Z %d ofstd %s" % (k, hexs(b))); size[k] = len(b)
+            elif kind == 2:
+                b = rb(r.rng(0, 8)); lines.append("Z %d ofstdattr %s %s" % (k, hexs(b), " ".join(map(str, wf_attr(r))))); size[k] = len(b)
+            elif kind == 3:
+                b = rb(r.rng(0, 8)); lines.append("Z %d cstr %s" % (k, hexs(b)))
+                size[k] = b.index(0) if 0 in b else len(b)
+            elif kind == 4:
+                n = r.pick([0, 1, 2, 7, 33]); lines.append("Z %d fill %d %s" % (k, n, an_elem())); size[k] = n
+            elif kind == 5:
+                n = r.below(5); lines.append("Z %d range %d%s" % (k, n, "".join(" " + an_elem() for _ in range(n)))); size[k] = n
+            else:
+                n = r.below(4); lines.append("Z %d ilist %d%s" % (k, n, "".join(" " + an_elem() for _ in range(n)))); size[k] = n
+            t = k
+            k += 1
+        else:
+            t = r.pick(ids)
+            n = size[t]
+            if c == 5:
+                lines.append("Z %d appendelem %s" % (t, an_elem())); size[t] += 1
+            elif c == 6:
+                o = r.pick(ids); lines.append("Z %d append %d" % (t, o)); size[t] += size[o]
+            elif c == 7 and k < 3:
+                a, b = r.pick(ids), r.pick(ids); lines.append("Z %d plus %d %d" % (k, a, b)); size[k] = size[a] + size[b]; t = k; k += 1
+            elif c == 8 and k < 3:
+                a = r.pick(ids); lines.append("Z %d pluselem %d %s" % (k, a, an_elem())); size[k] = size[a] + 1; t = k; k += 1
+            elif c == 9:
+                lines.append("Z %d insert %d %s" % (t, r.pick([0, n, r.below(n + 1)]), an_elem())); size[t] += 1
+            elif c == 10:
+                o = r.pick(ids); lines.append("Z %d insertrange %d %d" % (t, r.pick([0, n, r.below(n + 1)]), o)); size[t] += size[o]
+            elif c == 11 and r.chance(1, 3):
+                lines.append("Z %d erase" % t); size[t] = 0
+            elif c == 12:
+                pos = r.pick([0, n, r.below(n + 1)]); lines.append("Z %d erasefrom %d" % (t, pos)); size[t] = pos
+            elif c == 13:
+                a = r.below(n + 1); b = r.rng(a, n); lines.append("Z %d eraserange %d %d" % (t, a, b)); size[t] = n - (b - a)
+            elif c == 14 and n > 0:
+                lines.append("Z %d setat %d %s" % (t, r.pick([0, n - 1, r.below(n)]), an_elem()))
+            elif c == 15:
+                o = r.pick(ids); lines.append("Z %d swap %d" % (t, o)); size[t], size[o] = size[o], size[t]
+            elif c == 16 and k < 3:
+                lines.append("Z %d copy %d" % (k, t)); size[k] = size[t]; t = k; k += 1
+            else:
+                continue
+        for i in sorted(size):
+            lines.append("Z %d dump" % i)
+    lines.append("END")
+    return lines
+
+
 def gen_show_case(r, idx):
     """values inserted one after another into one std::ostream: the text of a
     value must not depend on what was streamed before it"""
